@@ -1,1 +1,101 @@
--- C02: property theorems (to be filled in)
+/-
+C02 — (static well-formedness part) every identifier the translator introduces is declared in a
+scope that encloses all its uses and initialised before its first read.
+
+`WellFormed` (lean/FaxVerif/Cpp/Check.lean) is a checker evaluated on the implementation's own
+parsed output on every run; the theorems say what acceptance guarantees for ALL executions.
+The package-completeness part of C02 (files, mode bits, no template directive left) is decided by
+the rendered-template theorems of C14 and the file checks of tools/props/c02.py.
+-/
+import FaxVerif.Cpp.EventLocal
+namespace FaxVerif.C02
+open FaxVerif.Cpp
+variable {D : Type}
+
+/-- **C02.wf_no_unbound** — a package accepted by `WellFormed` never reads an undeclared name or
+a declared-but-uninitialised one, never assigns to an undeclared name and never fills the tree
+from an unset column: for every number model, every event and every (clean) class state the
+per-event code cannot hit the fault `unbound`. -/
+theorem wf_no_unbound (P : Package) (N : Num D) (hP : WellFormed P = true)
+    (σc : Env D) (hc : ClassClean P σc) (ev : Event D) (n : String) :
+    runEvent P N σc ev ≠ .error (.unbound n) := by
+  have hwf' : (∃ s', da P.daCtx P.body (classDA P.classVars) = some s') := by
+    unfold WellFormed at hP
+    simp only [Bool.and_eq_true, decide_eq_true_eq] at hP
+    cases hd : da P.daCtx P.body (classDA P.classVars) with
+    | none => rw [hd] at hP; simp at hP
+    | some s' => exact ⟨s', rfl⟩
+  obtain ⟨s', hda⟩ := hwf'
+  have hres := exec_sound (P.ctx N ev) P.daCtx rfl (tokenBank_some P N ev) P.body _ s'
+    { env := σc, rows := [] } { env := σc, rows := [] } hda (classDA_AsubD _)
+    (good_of_clean P σc σc hc hc) rfl
+  unfold runEvent
+  rcases hres with ⟨f, e1, _, hf⟩ | ⟨t, _, e1, _, _, _⟩
+  · rw [e1]; intro h; simp only [Except.error.injEq] at h; exact hf n h
+  · rw [e1]; simp
+
+/-- **C02.wf_no_unbound_job** — the same for a whole job from the initial class state, provided
+the package is also event-local (so that the class state stays clean between events). -/
+theorem wf_no_unbound_job (P : Package) (N : Num D) (hP : EventLocal P = true)
+    (evs : List (Event D)) (n : String) : runJob P N evs ≠ .error (.unbound n) := by
+  have hwf : WellFormed P = true := by
+    unfold EventLocal at hP; simp only [Bool.and_eq_true] at hP; exact hP.1
+  have hnd : (classNames P.classVars).Nodup := by
+    unfold WellFormed at hwf
+    simp only [Bool.and_eq_true, decide_eq_true_eq] at hwf
+    simpa [classNames] using hwf.1.2
+  have key : ∀ (evs : List (Event D)) (σc : Env D), ClassClean P σc → runJobFrom P N σc evs ≠ .error (.unbound n) := by
+    intro evs
+    induction evs with
+    | nil => intro σc _; simp [runJobFrom]
+    | cons ev evs ih =>
+      intro σc hc
+      simp only [runJobFrom]
+      cases h : runEvent P N σc ev with
+      | error f =>
+        have := wf_no_unbound P N hwf σc hc ev n
+        rw [h] at this
+        simpa using this
+      | ok r =>
+        obtain ⟨rows, σc'⟩ := r
+        obtain ⟨hcl, _⟩ := (runEvent_local P N hP σc hc ev).2 rows σc' h
+        simp only []
+        have := ih σc' hcl
+        cases hj : runJobFrom P N σc' evs with
+        | ok more => simp
+        | error f => rw [hj] at this; simpa using this
+  exact key evs _ (classInit_clean P hnd)
+
+/-- **C02.block_scoped** — acceptance is scoped: the analysis forgets, at every closing brace, the names
+declared inside it, so a use after the block that declared the name is rejected. Stated on the
+checker: the set of declared names after a block equals the set before it. -/
+theorem block_scoped (C : DACtx) (body : List Stmt) (s s' : DA) (h : da C (.block body) s = some s') :
+    s'.D = s.D ∧ ∀ x ∈ s'.A, x ∈ s.D := by
+  simp only [da] at h
+  split at h
+  · simp only [Option.some.injEq] at h; subst h
+    exact ⟨rfl, fun x hx => by simp only [List.mem_filter, decide_eq_true_eq] at hx; exact hx.2⟩
+  · simp at h
+
+/-- **C02.declared_once** — an accepted program never declares a name that is already declared
+on the path to that point (no redeclaration, no shadowing of generated names). -/
+theorem declared_once (C : DACtx) (ty n : String) (init : Option CExpr) (s s' : DA)
+    (h : da C (.decl ty n init) s = some s') : n ∉ s.D ∧ n ∈ s'.D := by
+  simp only [da] at h
+  split at h
+  · simp at h
+  · rename_i hn
+    refine ⟨hn, ?_⟩
+    cases init with
+    | some e =>
+      simp only at h
+      split at h
+      · simp only [Option.some.injEq] at h; subst h; simp
+      · simp at h
+    | none =>
+      simp only at h
+      split at h <;> (simp only [Option.some.injEq] at h; subst h; simp)
+
+example : WellFormed (FaxVerif.Cpp.Package.mk (.block []) [] [] "" []) = true := by decide +kernel
+
+end FaxVerif.C02
